@@ -95,9 +95,10 @@ impl Exec {
             c.io.begin_op(0);
         });
         clean_dir(&self.disk);
-        // chrono re-reads TZ once its cached zone is a (simulated) second old: a zone the sibling switched to for its
-        // read-back must not outlive it
-        self.jump_clock(2);
+        // chrono re-reads TZ once its cached zone is a (simulated) second old - or seems to lie in the future: a zone
+        // the sibling switched to for its read-back must not outlive it. The step is one that the case's own clock
+        // jumps (a few of +-1 s, +-1 h, 13.5 h, a year) cannot cancel to within a second.
+        self.jump_clock(1000);
         self.count("probe.sibling_case_first");
         if let Err(p) = r {
             std::panic::resume_unwind(p);
